@@ -109,7 +109,8 @@ CHECKS = {
     category="proof",
     text="PARTIAL. Proved (Coq) on tables regenerated on every run from BOTH sources (Python modules imported; C headers/sources parsed): "
          "context flags, tag contexts, markers (+NUM_MARKERS, regex class), MAX_DEPTH, MAX_BRACES, URI scheme lists, tag classes, markup "
-         "map, token names, entity tables agree; flags are distinct bits, aggregates use declared bits; for ALL strings the Python lookup "
+         "map, token names, entity tables agree; flags are distinct bits, aggregates use declared bits; the C sources use only the Unicode "
+         "character-class macros; for ALL strings the Python lookup "
          "(lower() in TABLE) and the C lookup (ASCII strcmp) agree. NOT proved: equality of the token streams: checked by differential "
          "execution on table-driven inputs (every scheme/tag/entity/brace-run form) and the generated stream.",
     design_ref="DESIGN.md section 5, C04",
@@ -177,9 +178,10 @@ CHECKS = {
     category="proof",
     text="Theorems (Coq, every well-formed tree, any visibility table, any entity normaliser): with normalize off and template "
          "parameters not kept, strip_code returns a subsequence of the source text, with and without collapse (collapse itself only "
-         "removes characters); every named entity of the generated table normalises to one character; numeric boundaries. The model "
+         "removes characters); with normalize on (or off) every returned string is a subsequence of the source after each entity is "
+         "replaced by its character; every named entity of the generated table normalises to one character; numeric boundaries. The model "
          "(Wikicode.strip_code + each node's __strip__) is total by construction and tied to /repo by comparing strip_code for all 8 "
-         "option combinations on real token streams. The normalize=True clause and totality on the implementation are checked by the oracle.",
+         "option combinations on real token streams. Totality on the implementation is checked by the oracle.",
     design_ref="DESIGN.md section 5, C15",
     note="Trusted: as C09; int() of entity values modelled for ASCII digits; is_visible with ASCII lower-casing. No axioms.",
     technique="Coq proof (subsequence by induction on token-stream length of the tree) + correspondence on all option combinations + oracle"),
